@@ -47,7 +47,19 @@ func (m c11) Run(ctx *core.Ctx) {
 			q = ""
 		}
 		cs := &core.Case{Check: "history", Input: core.S(q), Config: []string{gen.Pick(r, []string{"http://h/", "a://h/", "a:/p", "file:///x", "https://u:p@h:1/p"})}}
-		if i%2 == 0 {
+		if i%16 == 1 {
+			// long lists with few distinct names: sort stability beyond small-slice fast paths
+			cs.Check = "history"
+			k := 13 + r.IntN(40)
+			nm := []string{"a", "b", "c", "é", "\U00010000", "\uffff", "", "aa"}
+			for j := 0; j < k; j++ {
+				cs.Ops = append(cs.Ops, sOp("sp.append", nm[r.IntN(2+r.IntN(len(nm)-1))], fmt.Sprint(j%7, "v", j)))
+			}
+			cs.Ops = append(cs.Ops, sOp(gen.Pick(r, []string{"sp.sort", "sp.sort", "sp.sortabs"})))
+			if r.IntN(2) == 0 {
+				cs.Ops = append(cs.Ops, sOp("sp.delete", "a"), sOp("sp.sort"))
+			}
+		} else if i%2 == 0 {
 			k := r.IntN(13)
 			for j := 0; j < k; j++ {
 				op := genOp(r, histKinds{sp: true, spRead: r.IntN(4) == 0})
